@@ -162,6 +162,7 @@ func runShard(cfg propCfg, bin, id, tier string, k, n int, seed int64, checks in
 		if json.Unmarshal(b, &p) == nil {
 			res.part = &p
 		}
+		os.Remove(partPath) // merged into the evidence file; the parts are only an inter-process channel
 	}
 	if res.exit != 0 && (res.part == nil || !res.part.Done) {
 		if b, err := os.ReadFile(inflight); err == nil && len(bytes.TrimSpace(bytes.Trim(b, "\x00"))) > 0 {
